@@ -55,6 +55,9 @@ type InstCfg struct {
 	HealthRest string `json:"health_rest,omitempty"`
 	HasHealth  bool   `json:"has_health,omitempty"`
 	MaxHealth  int    `json:"max_health,omitempty"`
+	// HealthBlock: how long a 'b' / 'B' result blocks - a checker that ignores its context (a probe
+	// without a deadline) and then reports unhealthy ('b') or healthy ('B')
+	HealthBlock Dur `json:"health_block,omitempty"`
 	// Callbacks
 	PromoteMode string `json:"promote_mode,omitempty"` // "block" (until ctx done) | "return" | "sleep"
 	PromoteDur  Dur    `json:"promote_dur,omitempty"`
